@@ -1168,7 +1168,8 @@ pub struct SymSut {
 impl SymSut {
     pub fn new(spec: SutSpec, cfg: Config, seed: u64, n_clients: u8) -> SymSut {
         let allow: Option<HashSet<Uuid>> = if spec.allow_all {
-            Some((0..n_clients).map(|c| client_uuid(seed, c)).collect())
+            // the clients of the exploration among two dozen other listed ids
+            Some((0..n_clients).chain(100..124).map(|c| client_uuid(seed, c)).collect())
         } else {
             None
         };
